@@ -14,6 +14,18 @@ both sides).  Independently of the model, every history the *implementation* pro
 specification monitors (FIFO, at-most-once, processed-before-returned, scheduler-detected deadlock, harness
 assertions on mutex/context use).
 
+Granularity (review finding: a shared write moved out of the critical section but before the next blocking point was
+invisible): three further ties, all in the quick tier —
+  * fine mode of the scheduler shim (scheduling points right after every lock acquisition and right after every
+    unlock): seeded random schedules at that granularity; the harness derives the coarse schedule (each model step
+    where its critical section ran), the model replays it and must reproduce every snapshot taken when all threads
+    are at coarse blocking points, the final state, the API return values and the history; any dead-lock is a
+    violation (theorem x_no_deadlock);
+  * real threads (harness/h_c09rt.c, shim_c09_rt.h: seeded random yields/sleeps before and after every pthread
+    call, hang detector based on /proc task states and CPU time): return values of failure-free runs = the serial
+    pool model's (theorem refines_serial), all runs through the API/FIFO/once monitors;
+  * the same under -fsanitize=thread: happens-before monitor for the pool's shared fields (lockset discipline).
+
 D1 (DESIGN.md §5): the pinned `dequeue` never looks at `status`.  The check first replays the witness of
 lean/Sqfs/Witness/C09.lean on the real code.  If it dead-locks, the tree has the pinned behaviour: the finding is
 reported under key D1_KEY and the model variant `repaired = 0` is the reference for the rest of the run; every
@@ -29,7 +41,9 @@ REQUIRED = ["Sqfs.C09." + t for t in (
     "inv_init", "inv_step", "inv_reachable", "run_reachable", "strict_reachable", "fifo", "fifo_run", "at_most_once",
     "returned_at_most_once", "no_item_lost", "exactly_once", "ctx_exclusive", "ctx_owner", "no_lost_wakeup", "no_deadlock",
     "no_deadlock_flag", "api_returns", "failure_recorded", "failure_sticky", "failure_reported_submit", "failure_reported_get_status",
-    "failure_reported_dequeue", "healthy_status_zero", "dequeue_null_only_if", "refines_serial", "refines_serial_prefix")]
+    "failure_reported_dequeue", "healthy_status_zero", "dequeue_null_only_if", "refines_serial", "refines_serial_prefix",
+    "x_projects", "xrun_reachable", "ctx_exclusive_users", "ctx_read_at_entry", "set_worker_ptr_returns", "submit_oom",
+    "x_no_deadlock", "x_no_deadlock_flag", "fine_refines_coarse", "frun_reachable", "fine_mutex", "fine_safety", "fine_no_deadlock")]
 WITNESS_MODULE = "Sqfs.Witness.C09"
 WITNESS_REQUIRED = ["Sqfs.Witness.C09." + t for t in (
     "schedule_is_strict_execution", "deadlock_after_failure", "hang_forever", "no_deadlock_fails_for_pinned_code",
@@ -37,6 +51,32 @@ WITNESS_REQUIRED = ["Sqfs.Witness.C09." + t for t in (
 D1_KEY = "D1:dequeue-waits-forever-after-worker-failure"
 WITNESS_CHOICES = "s0 m s1 m w0 w0 w0 q m q m"
 WITNESS_RC = "0:-5"
+
+
+def zip_strict(*seqs):
+    """zip() that refuses streams of different length (a short stream is an infrastructure failure, not a pass)"""
+    n = len(seqs[0])
+    for q in seqs[1:]:
+        if len(q) != n:
+            raise vlib.CheckFailure("internal: streams of different length (%s)" % ", ".join(str(len(x)) for x in seqs))
+    return zip(*seqs)
+
+
+def need(cond, what):
+    """a part of the check that evaluated nothing is a failure of the check, never a pass"""
+    if not cond:
+        raise vlib.CheckFailure("check infrastructure: " + what)
+
+
+def driver_lines(ctx, lines):
+    """one answer per line from `sqfsmodel c09` (none for no lines)"""
+    lines = list(lines)
+    if not lines:
+        return []
+    out = ctx.driver(["c09"], "\n".join(lines) + "\n")
+    if len(out) != len(lines):
+        raise vlib.CheckFailure("model driver answered %d of %d lines" % (len(out), len(lines)))
+    return out
 
 
 def harness_build(ctx):
@@ -51,15 +91,20 @@ def jobs(ctx):
     return min(len(os.sched_getaffinity(0)), 8 if ctx.quick() else 12)
 
 
-def run_parallel(ctx, argv, lines, timeout, pin=True):
-    """feed `lines` to `argv` split over several processes (order preserved); returns (outputs, problems)"""
+def run_parallel(ctx, argv, lines, timeout, pin=True, per_job=200, env_extra=None):
+    """feed `lines` to `argv` split over several processes (order preserved); returns (outputs, problems).
+    Every process must exit 0 and answer every line; anything else is a problem (the caller reports it)."""
+    if not lines:
+        return [], []
     cpus = sorted(os.sched_getaffinity(0))
-    nj = max(1, min(jobs(ctx), len(lines) // 200 + 1))
+    nj = max(1, min(jobs(ctx), len(lines) // per_job + 1))
     size = (len(lines) + nj - 1) // nj
     chunks = [lines[i:i + size] for i in range(0, len(lines), size)]
     procs = []
     for k, ch in enumerate(chunks):
         env = ctx.san_env({"VS_CPU": str(cpus[(k * max(1, len(cpus) // len(chunks))) % len(cpus)])} if pin else None)
+        if env_extra:
+            env.update(env_extra)
         inp = ctx.scratch / ("in_%d_%d.txt" % (os.getpid(), k))
         inp.write_text("\n".join(ch) + "\n")
         f = open(inp)
@@ -84,9 +129,12 @@ def run_parallel(ctx, argv, lines, timeout, pin=True):
 
 
 def model_run(ctx, lines):
-    out, problems = run_parallel(ctx, [str(ctx.driver_path()), "c09"], lines, 900, pin=False)
+    out, problems = run_parallel(ctx, [str(ctx.driver_path()), "c09"], lines, 1800, pin=False)
     if problems:
         raise vlib.CheckFailure("model driver failed: %s" % problems[0])
+    bad = [(l, o) for l, o in zip_strict(lines, out) if o == "bad-op"]
+    if bad:
+        raise vlib.CheckFailure("model driver does not understand a generated line: %s" % bad[0][0][:300])
     return out
 
 
@@ -95,6 +143,8 @@ def enum_scripts(ctx, rep, n, rc, pre, spur, cap, ops):
     if r.returncode != 0:
         raise vlib.CheckFailure("enum failed: " + r.stderr[-500:])
     ls = r.stdout.splitlines()
+    need(ls and ls[-1].startswith("#paths ") and int(ls[-1].split()[1]) == len(ls) - 1 and len(ls) > 1,
+         "schedule enumeration printed no schedule or an inconsistent count: %s" % (ls[-1:] or ["<nothing>"])[0])
     tail = ls[-1].split()
     return ls[:-1], tail[2] == "complete"
 
@@ -103,7 +153,9 @@ def rand_scripts(ctx, rep, n, rc, seed, count, psw, psp, ops):
     r = vlib.sh([str(ctx.driver_path()), "c09", "rand", str(rep), str(n), rc, str(seed), str(count), str(psw), str(psp)] + ops, timeout=600)
     if r.returncode != 0:
         raise vlib.CheckFailure("rand failed: " + r.stderr[-500:])
-    return r.stdout.splitlines()
+    ls = r.stdout.splitlines()
+    need(len(ls) == count and all(l.startswith("run ") for l in ls), "random schedule generator returned %d of %d schedules" % (len(ls), count))
+    return ls
 
 
 # ---- API scripts ---------------------------------------------------------------------------------------------
@@ -115,6 +167,9 @@ def api_scripts(k):
         "status+extra-dequeue": sub + ["g"] + ["q"] * (k + 1) + ["g", "x"],
         "early-destroy": sub + ["q"] * (k // 2) + ["x"],
         "no-destroy": sub + ["q"] * k + ["q"],
+        # set_worker_ptr (in range, NULL, out of range; also while callbacks run) and calloc failure in submit (first call:
+        # recycle list empty -> -1; later: recycle list may be non-empty -> ordinary submit)
+        "ptr+oom": ["o0"] + sub[:1] + ["p0:5"] + sub[1:] + ["q"] * ((k + 1) // 2) + ["o%d" % (k + 1), "p0:0", "p9:3"] + ["q"] * (k // 2 + 1) + ["x"],
     }
     return out
 
@@ -133,6 +188,8 @@ def plan(ctx):
     P = []
     # complete for the smallest configurations
     P += [("complete", 1, 1, nm, 99, 2, 10 ** 7) for nm in ("all-then-all", "status+extra-dequeue", "early-destroy", "no-destroy")]
+    P += [("complete", 1, 1, "ptr+oom", 99, 0, 10 ** 7), ("bounded", 2, 2, "ptr+oom", 1 if q else 2, 0, 3000 if q else 10 ** 6),
+          ("bounded", 3, 3, "ptr+oom", 0 if q else 1, 1, 1000 if q else 20000)]
     P += [("complete", 1, 2, "all-then-all", 99, 0 if q else 1, 10 ** 7), ("complete", 1, 2, "interleaved", 99, 0 if q else 1, 10 ** 7)]
     P += [("complete", 2, 1, "all-then-all", 99, 0, 10 ** 7)]
     if not q:
@@ -149,21 +206,21 @@ def plan(ctx):
     return P
 
 
-HIST_KEYS = ("waitQ0", "waitQ1", "deqWait0", "deqWait1", "join:", "fin:", "exit", "deq:null", "dl=1", "| ne")
+HIST_KEYS = ("waitQ0", "waitQ1", "deqWait0", "deqWait1", "join:", "fin:", "exit", "deq:null", "dl=1", "| ne", "setPtrLock", "r=sub:-1", "r=set")
 
 
 def classify_impl(line):
     """facts about the implementation's own trace, independent of the model"""
     head, _, tail = line.partition(" || ")
     snaps = head.split(" | ")
-    info = {"deadlock": None, "err": None, "sub": "-", "cb": "-", "ret": "-"}
+    info = {"deadlock": None, "err": None, "sub": "-", "cb": "-", "ret": "-", "ev": "-"}
     for i, sn in enumerate(snaps):
         if " dl=1" in sn:
             info["deadlock"] = (i, sn)
             break
-    m = re.search(r"sub=(\S+) cb=(\S+) ret=(\S+)(?: err=(\S+))?", tail)
+    m = re.search(r"sub=(\S+) cb=(\S+) ret=(\S+)(?: ev=(\S+))?(?: err=(\S+))?", tail)
     if m:
-        info["sub"], info["cb"], info["ret"], info["err"] = m.group(1), m.group(2), m.group(3), m.group(4)
+        info["sub"], info["cb"], info["ret"], info["ev"], info["err"] = m.group(1), m.group(2), m.group(3), m.group(4) or "-", m.group(5)
     else:
         info["err"] = "no-history"
     return info
@@ -206,7 +263,7 @@ def compare_batch(ctx, harness, rep, scripts, stats, label):
     if not scripts:
         return 0
     t0 = time.time()
-    impl, problems = run_parallel(ctx, [str(harness)], scripts, 120 + len(scripts) // 50)
+    impl, problems = run_parallel(ctx, [str(harness)], scripts, 300 + len(scripts) // 20)
     t1 = time.time()
     model = model_run(ctx, scripts)
     stats["harness_s"] += t1 - t0
@@ -217,11 +274,14 @@ def compare_batch(ctx, harness, rep, scripts, stats, label):
         ctx.violation("crash:" + pb["script"], "real threadpool.c under the scheduler aborted / hung (rc=%s) in or after script: %s :: %s" % (
             pb["rc"], pb["script"], pb["stderr"][-300:]), {"script": pb["script"], "stderr": pb["stderr"], "rc": pb["rc"]})
     infos = [classify_impl(l) for l in impl]
-    mon = ctx.driver(["c09"], "\n".join(monitor_lines(infos)) + "\n")
+    mon = driver_lines(ctx, monitor_lines(infos))
+    cmon = driver_lines(ctx, ["ctxmon " + inf["ev"] for inf in infos])
     nbad = 0
-    for i, (sc, a, b) in enumerate(zip(scripts, impl, model)):
+    answered = 0
+    for i, (sc, a, b, mo, cm) in enumerate(zip_strict(scripts, impl, model, mon, cmon)):
         if a == "<no output>":
-            continue
+            continue                                  # the process died: reported above as crash
+        answered += 1
         stats["steps"] += a.count(" | ")
         for k in HIST_KEYS:
             if k in a:
@@ -230,8 +290,14 @@ def compare_batch(ctx, harness, rep, scripts, stats, label):
             stats["nontrivial"].add(sc)
         inf = infos[i]
         spec_bad = []
-        if mon[i] != "ok":
-            spec_bad.append(mon[i])
+        if mo != "ok":
+            spec_bad.append(mo)
+        if cm == "undisciplined":
+            stats["ctx_undisciplined"] = stats.get("ctx_undisciplined", 0) + 1
+        elif cm != "ok":
+            spec_bad.append(cm)
+        else:
+            stats["ctx_monitored"] = stats.get("ctx_monitored", 0) + 1
         if inf["err"]:
             spec_bad.append("harness-assertion:" + inf["err"])
         if inf["deadlock"]:
@@ -258,6 +324,7 @@ def compare_batch(ctx, harness, rep, scripts, stats, label):
                               "no clause of the property fails on this schedule" % (rep, k, sc, sa[k] if k < len(sa) else "-", sb[k] if k < len(sb) else "-"),
                               {"script": sc, "step": k, "impl": a, "model": b, "correspondence": "harness/h_c09.c vs Driver/C09.lean"},
                               found_input=False)
+    need(answered > 0 or problems, "the harness answered none of the %d '%s' schedules" % (len(scripts), label))
     stats["disagreements"] += nbad
     if stats.get("hserial") is not None:
         threaded_vs_serial(ctx, stats["hserial"], scripts, impl, stats)
@@ -284,7 +351,11 @@ def random_long(ctx, rep, count, maxn, maxitems, length):
                 toks.append("g")
             elif r < 0.545:
                 toks.append("x")
-            elif r < 0.56:
+            elif r < 0.552:
+                toks.append("p%d:%d" % (ctx.rng.randrange(n + 1), ctx.rng.randrange(0, 9)))
+            elif r < 0.556:
+                toks.append("o%d" % ctx.rng.randrange(k))
+            elif r < 0.57:
                 toks.append("M")
             elif r < 0.59:
                 toks.append("W%d" % ctx.rng.randrange(n))
@@ -336,7 +407,10 @@ def compare_serial(ctx, stats):
         ctx.violation("crash-serial:" + pb["script"], "threadpool_serial.c aborted (rc=%s) on: %s" % (pb["rc"], pb["script"]),
                       {"script": pb["script"], "stderr": pb["stderr"]})
     bad = 0
-    for l, a, b in zip(lines, impl, model):
+    need(len(lines) > 1000, "no serial pool scripts generated")
+    for l, a, b in zip_strict(lines, impl, model):
+        if a == "<no output>":
+            continue
         if a != b:
             bad += 1
             if bad <= 3:
@@ -352,7 +426,7 @@ def threaded_vs_serial(ctx, hserial, scripts, impl_lines, stats):
     want, got = [], []
     for sc, a in zip(scripts, impl_lines):
         parts = sc.split()
-        if parts[3] != "-" or " | ne" in a or a == "<no output>":
+        if parts[3] != "-" or " | ne" in a or a == "<no output>" or any(t[0] in "po" for t in parts[4:]):
             continue
         ops = [t for t in parts[4:] if t in ("q", "g", "x") or (t[0] == "s" and t[1:].isdigit())]
         rets = [m for m in re.findall(r" r=(\S+)", a.split(" || ")[0]) if m != "-"]
@@ -363,8 +437,10 @@ def threaded_vs_serial(ctx, hserial, scripts, impl_lines, stats):
     if not want:
         return
     ser, problems = run_parallel(ctx, [str(hserial)], want, 600, pin=False)
+    if problems:
+        raise vlib.CheckFailure("serial pool harness failed: %s" % problems[0])
     nb = 0
-    for w, g, s_ in zip(want, got, ser):
+    for w, g, s_ in zip_strict(want, got, ser):
         if g != s_:
             nb += 1
             if nb <= 3:
@@ -391,6 +467,11 @@ def bp_workloads(ctx, count):
             # a failing *fragment* (< block size) is never compressed by a worker; make sure one full block fails
             if all(int(f.split(":")[0]) < bs for f in files if f.endswith(":e")):
                 files.append("%d:e" % bs)
+            elif ctx.rng.random() < 0.3:
+                # the failing block last in the stream: nothing is submitted after the failure (the schedule decides whether
+                # the block processor still notices it — see the side finding in docs/design/C09.md)
+                e = [f for f in files if f.endswith(":e")]
+                files = [f for f in files if not f.endswith(":e")] + ["%d:e" % (int(e[0].split(":")[0]) // bs * bs or bs)]
         out.append(("%d %s" % (bs, " ".join(files)), fail))
     return out
 
@@ -418,17 +499,23 @@ def compare_block_processor(ctx, rep, stats):
     for pb in (problems + rproblems)[:2]:
         ctx.violation("crash-bp:" + pb["script"], "block processor on the controlled pool aborted / hung (rc=%s): %s :: %s" % (
             pb["rc"], pb["script"], pb["stderr"][-300:]), {"script": pb["script"], "stderr": pb["stderr"]})
-    refmap = {w: dict(kv.split("=") for kv in r.split()) for (w, _), r in zip(wl, ref[:len(wl)]) if r.startswith("rc=")}
-    ignmap = {w: dict(kv.split("=") for kv in r.split()) for (w, _), r in zip(wl, ref[len(wl):]) if r.startswith("rc=")}
-    bad = d1 = nfail = swallowed = 0
-    for l, (w, fail), a in zip(lines, meta, impl):
+    need(len(ref) == 2 * len(wl) and len(impl) == len(lines), "block processor harness: missing answers")
+    refmap = {w: dict(kv.split("=") for kv in r.split()) for (w, _), r in zip_strict(wl, ref[:len(wl)]) if r.startswith("rc=")}
+    ignmap = {w: dict(kv.split("=") for kv in r.split()) for (w, _), r in zip_strict(wl, ref[len(wl):]) if r.startswith("rc=")}
+    need(len(refmap) > len(wl) // 2, "block processor harness (serial pool build) produced no reference results")
+    bad = d1 = nfail = swallowed = answered = overl = spur = 0
+    for l, (w, fail), a in zip_strict(lines, meta, impl):
         if not a.startswith("rc="):
             continue
+        answered += 1
         r, want = dict(kv.split("=") for kv in a.split()), refmap.get(w)
         nfail += fail
+        spur += int(r["spur"])
         why = None
         if r["mtx"] != "0":
             why = "a mutex was held at a scheduling point"
+        elif r["shared"] != "0":
+            why = "two workers were inside do_block of the same compressor object at the same time (per-worker context shared)"
         elif r["dl"] == "1":
             if rep == 0 and fail:
                 d1 += 1                       # D1 seen through the block processor (pinned code only)
@@ -437,20 +524,28 @@ def compare_block_processor(ctx, rep, stats):
         elif want is None:
             continue
         elif fail:
-            # Both pools hand a failing item back non-NULL and dequeue_block only asks get_status on NULL, so a failure
-            # after which nothing is submitted any more is not noticed by the block processor (rc=0, block stored
-            # uncompressed).  Whether a later submit still sees the status depends on when the worker ran, i.e. on the
-            # schedule (and differs from the serial pool, which runs the callback at dequeue time).  That is C13's
-            # concern (docs/design/C09.md).  Here: either the compressor's error, or exactly the output one gets when
-            # the failing block is treated as incompressible.
-            if r["rc"] == "0":
+            # The compressor failed on (at least) one block.  The worker must have handed the error to the pool
+            # (pool status = SQFS_ERROR_COMPRESSOR when the processor is done) whatever the schedule.  Whether the
+            # *block processor* then reports it depends on the schedule: both pools hand a failing item back non-NULL
+            # and dequeue_block asks get_status only on NULL / after a failed submit, so a failure after which nothing is
+            # submitted any more goes unnoticed (rc=0, block stored uncompressed) — C13's concern (docs/design/C09.md).
+            # Accepted: the compressor's error, or rc=0 with exactly the output one gets when the failing block is
+            # treated as incompressible AND the pool knows the error.
+            if int(r["cfail"]) > 0 and r["pst"] != r["cerr"]:
+                why = "the compressor failed %s time(s) but the pool's status is %s, not SQFS_ERROR_COMPRESSOR=%s: the worker's error never " \
+                      "reached the pool" % (r["cfail"], r["pst"], r["cerr"])
+            elif r["rc"] == "0":
                 swallowed += 1
                 ign = ignmap.get(w)
-                if ign is not None and (r["sz"], r["out"], r["ino"]) != (ign["sz"], ign["out"], ign["ino"]):
+                if ign is None:
+                    why = "no failure-ignored reference for a failing workload"
+                elif (r["sz"], r["out"], r["ino"]) != (ign["sz"], ign["out"], ign["ino"]):
                     why = "worker failure unnoticed AND output differs from the failure-ignored reference (threaded %s / reference out=%s ino=%s)" % (
                         a, ign["out"], ign["ino"])
             elif r["rc"] != r["cerr"]:
                 why = "a failing compressor is reported as rc=%s instead of SQFS_ERROR_COMPRESSOR=%s" % (r["rc"], r["cerr"])
+            elif int(r["cfail"]) == 0:
+                why = "rc=SQFS_ERROR_COMPRESSOR although the compressor never failed"
         elif (r["rc"], r["sz"], r["out"], r["ino"]) != (want["rc"], want["sz"], want["out"], want["ino"]):
             why = "failure-free output differs from the serial pool's (threaded %s / serial %s)" % (a, " ".join("%s=%s" % kv for kv in want.items()))
         if why:
@@ -458,14 +553,17 @@ def compare_block_processor(ctx, rep, stats):
             if bad <= 3:
                 ctx.violation("bp:" + l, "block processor on the controlled pool: %s; workload/schedule: %s" % (why, l),
                               {"bp_line": l, "impl": a, "serial": want})
-    stats["bp"] = {"workloads": len(wl), "schedules": len(lines), "with_failing_block": nfail, "d1_deadlocks_pinned_code": d1,
-                   "failure_unnoticed_by_block_processor": swallowed,
+    need(answered > len(lines) // 2 or problems, "block processor harness answered %d of %d schedules" % (answered, len(lines)))
+    stats["bp"] = {"workloads": len(wl), "schedules": len(lines), "answered": answered, "with_failing_block": nfail, "d1_deadlocks_pinned_code": d1,
+                   "failure_unnoticed_by_block_processor": swallowed, "spurious_wakeups_taken": spur,
                    "violations": bad, "wall_s": round(time.time() - t0, 1)}
     stats["disagreements"] += bad
 
 
 def compare_create_failure(ctx, harness, stats):
-    """pthread_create failing inside thread_pool_create (k-th of n): must return NULL with every created worker joined"""
+    """pthread_create failing inside thread_pool_create (k-th of n): must return NULL with every created worker joined; the
+    failure path is `destroy` on a pool with the k-1 workers created so far — its program-counter trace under seeded random
+    schedules (with spurious wake-ups) must be the model's for `x` on `init (k-1)`"""
     lines = ["cfail %d %d %d" % (n, k, ctx.rng.randrange(1 << 30)) for n in range(1, 7) for k in range(1, n + 1)
              for _ in range(10 if ctx.quick() else 200)]
     impl, problems = run_parallel(ctx, [str(harness)], lines, 300)
@@ -473,14 +571,304 @@ def compare_create_failure(ctx, harness, stats):
     for pb in problems[:2]:
         ctx.violation("crash-cfail:" + pb["script"], "thread_pool_create with a failing pthread_create aborted / hung: %s :: %s" % (
             pb["script"], pb["stderr"][-300:]), {"cfail_line": pb["script"], "stderr": pb["stderr"]})
-    for l, a in zip(lines, impl):
-        if a != "<no output>" and not (a.startswith("null=1 dl=0 alive=0 ") and a.endswith("mtx=0")):
+    idx = [i for i, a in enumerate(impl) if a != "<no output>"]
+    need(idx or problems, "create-failure harness answered nothing")
+    scripts = []
+    for i in idx:
+        m = re.search(r" \|\| derived=(.*) pcs=", impl[i])
+        scripts.append("run 1 %d - %s" % (int(lines[i].split()[2]) - 1, m.group(1) if m and m.group(1) != "-" else ""))
+    model = model_run(ctx, [sc.strip() for sc in scripts])
+    compared = 0
+    for i, sc, mo in zip_strict(idx, scripts, model):
+        l, a = lines[i], impl[i]
+        head, _, tail = a.partition(" || ")
+        why = None
+        if not (head.startswith("null=1 dl=0 alive=0 ") and head.endswith("mtx=0")):
+            why = "gives %s, expected NULL, no dead-lock, all workers joined, no mutex held at a scheduling point" % head
+        else:
+            want = re.findall(r"(m=\S+ w=\S+)", mo.split(" || ")[0])[1:]          # [0] = state before the call
+            got = tail.split(" pcs=", 1)[1].split(" | ") if " pcs=" in tail else []
+            compared += 1
+            if " | ne" in mo or want != got:
+                why = "does not behave like destroy() on a pool with the workers created so far: program counters %s, model %s" % (got, want)
+        if why:
             bad += 1
             if bad <= 2:
-                ctx.violation("cfail:" + l, "thread_pool_create with a failing pthread_create (%s) gives %s, expected NULL, no dead-lock, "
-                              "all workers joined" % (l, a), {"cfail_line": l, "impl": a})
+                ctx.violation("cfail:" + l, "thread_pool_create with a failing pthread_create (%s) %s" % (l, why), {"cfail_line": l, "impl": a, "model": mo})
+    need(compared > 0 or bad or problems, "create-failure traces: nothing compared")
     stats["create_failure_runs"] = len(lines)
+    stats["create_failure_traces_compared_with_model"] = compared
     stats["disagreements"] += bad
+
+
+# ---- fine mode: scheduling points after every lock acquisition and after every unlock ------------------------
+def fine_lines(ctx, rep, count):
+    out = []
+    for _ in range(count):
+        n = ctx.rng.choice([1, 1, 2, 2, 3, 4])
+        k = ctx.rng.randint(1, 6)
+        ops = []
+        # set_worker_ptr only before the first submit: afterwards the unlocked read of `user` in worker_proc makes the
+        # context a callback sees depend on the fine schedule (documented in docs/design/C09.md; the tools never do that)
+        for _ in range(ctx.rng.choice([0, 0, 1, 2])):
+            ops.append("p%d:%d" % (ctx.rng.randrange(n + 1), ctx.rng.randrange(0, 9)))
+        subs = ["s%d" % j for j in range(k)]
+        shape = ctx.rng.randrange(4)
+        if shape == 0:
+            body = subs + ["q"] * k
+        elif shape == 1:
+            body = [t for sname in subs for t in (sname, "q")]
+        elif shape == 2:
+            body = subs[:k // 2] + ["q"] * (k // 2) + subs[k // 2:] + ["q"] * (k - k // 2 + 1)
+        else:
+            body = subs + ["q"] * (k // 2)
+        for extra, pr in (("g", 0.4), ("o%d" % (k + 1), 0.25), ("q", 0.2), ("g", 0.2)):
+            if ctx.rng.random() < pr:
+                body.insert(ctx.rng.randrange(len(body) + 1), extra)
+        ops += body
+        if ctx.rng.random() < 0.75:
+            ops.append("x")
+        r = ctx.rng.random()
+        rc = "-" if r < 0.5 else "%d:%d" % (ctx.rng.randrange(k), ctx.rng.choice([-1, -7, 5])) if (r < 0.9 or k < 2) else "0:3,%d:-2" % (k - 1)
+        # schedules without set_worker_ptr / failing calloc are also compared, fine step by fine step, with the fine model
+        cmd = "fine" if any(t[0] in "po" for t in ops) else "finev"
+        out.append("%s %d %d %s %d %d %s" % (cmd, rep, n, rc, ctx.rng.randrange(1 << 30), ctx.rng.choice([0, 0, 5, 15]), " ".join(ops)))
+    return out
+
+
+def _norm_r(snap):
+    return re.sub(r" r=\S+", "", snap)
+
+
+def _hist_canon(h):
+    d = dict(kv.split("=", 1) for kv in h.split())
+    ev = [] if d.get("ev", "-") == "-" else d["ev"].split(",")
+    # callback-entry events are logged in the lock-free tail of the worker's step: their position among the other
+    # events is not determined by the derived coarse schedule; everything else is
+    d["ev_enter"] = sorted(e for e in ev if e[0] == "E")
+    d["ev"] = [e for e in ev if e[0] != "E"]
+    return d
+
+
+def fine_verdict(line, out, mout):
+    """compare one fine-mode run of the real code with the model run on the derived coarse schedule; -> (problems, info)"""
+    out = out.split(" ## ftrace=")[0]
+    head, sep, hist = out.partition(" ||")
+    body, sep2, tail = head.partition(" # ")
+    m = re.match(r"dl=(\d) steps=(\d+) derived=(.*) rets=(\S+)$", tail)
+    if not sep or not sep2 or not m:
+        return ["unparsable harness output"], {}
+    dl, steps, derived, rets = m.group(1), int(m.group(2)), m.group(3), m.group(4)
+    mhead, _, mhist = mout.partition(" ||")
+    snaps = mhead.split(" | ")
+    bad = []
+    if dl != "0":
+        bad.append("deadlock")
+    if " err=" in hist:
+        bad.append("harness-assertion:" + hist.split(" err=")[1])
+        hist = hist.split(" err=")[0]
+    if "ne" in snaps:
+        bad.append("the model refuses choice %d of the derived coarse schedule" % snaps.index("ne"))
+    sync = re.findall(r" @(final)?(\d+):(.*?)(?= @|$)", body)
+    if not sync or sync[-1][0] != "final":
+        bad.append("no final snapshot")
+    for fin, k, sn in sync:
+        k = int(k)
+        if k >= len(snaps) or _norm_r(snaps[k]) != _norm_r(sn):
+            bad.append("state after %d derived choices: impl [%s] model [%s]" % (k, sn, snaps[k] if k < len(snaps) else "-"))
+            break
+    mrets = ",".join(r for r in re.findall(r" r=(\S+)", mhead) if r != "-") or "-"
+    if mrets != rets:
+        bad.append("API return values: impl %s model %s" % (rets, mrets))
+    try:
+        if _hist_canon(hist) != _hist_canon(mhist):
+            bad.append("history: impl [%s] model [%s]" % (hist.strip(), mhist.strip()))
+    except ValueError:
+        bad.append("unparsable history")
+    return bad, {"steps": steps, "derived": derived, "sync": len(sync), "hist": hist}
+
+
+def fine_model_script(line, out):
+    """`frun` line for the fine model from the fine schedule a `finev` run took"""
+    m = re.search(r" ## ftrace=(.*) ## fsnaps=", out)
+    parts = line.split()
+    t = "" if (not m or m.group(1) == "-") else m.group(1)
+    return ("frun %s %s %s %s" % (parts[1], parts[2], parts[3], t)).strip()
+
+
+def fine_model_verdict(out, mout):
+    """the real code, fine step by fine step, against the fine model (Model/C09PoolFine.lean)"""
+    m = re.search(r" ## fsnaps=(.*)$", out)
+    if not m:
+        return ["no fine snapshots in the harness output"], 0
+    got = m.group(1).split(" | ")
+    mhead, _, mhist = mout.partition(" || ")
+    want = mhead.split(" | ")
+    bad = []
+    if "ne" in want:
+        bad.append("the fine model refuses step %d of the fine schedule the real code took" % want.index("ne"))
+    k = next((j for j, (x, y) in enumerate(zip(got, want)) if x != y), None)
+    if k is None and len(got) != len(want):
+        k = min(len(got), len(want))
+    if k is not None:
+        bad.append("fine step %d: impl [%s] fine model [%s]" % (k, got[k] if k < len(got) else "-", want[k] if k < len(want) else "-"))
+    hist = out.split(" ## ftrace=")[0].partition(" ||")[2]
+    try:
+        hd = dict(kv.split("=", 1) for kv in hist.split())
+        md = dict(kv.split("=", 1) for kv in mhist.split())
+        if any(hd.get(f) != md.get(f) for f in ("sub", "cb", "ret")):
+            bad.append("history: impl [%s] fine model [%s]" % (hist.strip(), mhist.strip()))
+    except ValueError:
+        bad.append("unparsable history")
+    return bad, len(got)
+
+
+def derived_script(line, out):
+    out = out.split(" ## ftrace=")[0]
+    m = re.search(r" derived=(.*) rets=\S+ \|\|", out)
+    parts = line.split()
+    d = "" if (not m or m.group(1) == "-") else m.group(1)
+    return ("run %s %s %s %s" % (parts[1], parts[2], parts[3], d)).strip()
+
+
+def compare_fine(ctx, harness, rep, stats):
+    lines = fine_lines(ctx, rep, 5000 if ctx.quick() else 80000)
+    t0 = time.time()
+    impl, problems = run_parallel(ctx, [str(harness)], lines, 600)
+    for pb in problems[:2]:
+        ctx.violation("crash-fine:" + pb["script"], "real threadpool.c under the fine-grained scheduler aborted / hung (rc=%s): %s :: %s" % (
+            pb["rc"], pb["script"], pb["stderr"][-300:]), {"fine_line": pb["script"], "stderr": pb["stderr"]})
+    idx = [i for i, a in enumerate(impl) if a.startswith("fine ")]
+    need(len(idx) > len(lines) // 2 or problems, "fine-mode harness answered %d of %d lines" % (len(idx), len(lines)))
+    model = model_run(ctx, [derived_script(lines[i], impl[i]) for i in idx])
+    cmon = driver_lines(ctx, ["ctxmon " + (re.search(r" ev=(\S+)", impl[i]) or [None, "-"])[1] for i in idx])
+    vidx = [i for i in idx if lines[i].startswith("finev ")]
+    need(len(vidx) > len(idx) // 4, "too few fine schedules are comparable with the fine model (%d of %d)" % (len(vidx), len(idx)))
+    fmodel = dict(zip_strict(vidx, model_run(ctx, [fine_model_script(lines[i], impl[i]) for i in vidx])))
+    bad = steps = sync = fsteps = 0
+    for i, mo, cm in zip_strict(idx, model, cmon):
+        probs, info = fine_verdict(lines[i], impl[i], mo)
+        if i in fmodel:
+            fp, nst = fine_model_verdict(impl[i], fmodel[i])
+            probs += fp
+            fsteps += nst
+        if cm not in ("ok", "undisciplined"):
+            probs.append(cm)
+        steps += info.get("steps", 0)
+        sync += info.get("sync", 0)
+        if probs:
+            bad += 1
+            if bad <= 3:
+                spec = [p for p in probs if p == "deadlock" or p.startswith("violated") or p.startswith("harness-assertion")]
+                ctx.violation("fine:" + lines[i], "real threadpool.c at lock/unlock granularity (%s) %s: %s" % (
+                    lines[i], "violates the property" if spec else "is not the models' behaviour (fine model step by step / base model on the derived coarse schedule: "
+                    "a lock-free segment is not thread-private?)", "; ".join(probs)[:900]),
+                    {"fine_line": lines[i], "impl": impl[i][:20000], "model": mo, "problems": probs}, found_input=bool(spec))
+    need(sync > len(idx) and fsteps > 10 * len(vidx), "fine mode produced no comparable snapshots")
+    stats["fine"] = {"schedules": len(lines), "answered": len(idx), "fine_steps": steps, "state_comparisons": sync,
+                     "schedules_compared_step_by_step_with_the_fine_model": len(vidx), "fine_model_state_comparisons": fsteps, "violations": bad,
+                     "wall_s": round(time.time() - t0, 1)}
+    stats["disagreements"] += bad
+
+
+# ---- real threads: random perturbation at every pthread call, hang detector, ThreadSanitizer -------------------
+def rt_build(ctx, tsan):
+    inc = ["-include", str(vlib.HARNESS / "shim_c09_rt.h")]
+    return ctx.cc("h_c09rt_tsan" if tsan else "h_c09rt", ["h_c09rt.c", "lib/util/src/alloc.c"], flags=inc + (["-fsanitize=thread"] if tsan else []),
+                  sanitize=False, libs=["-lpthread"])
+
+
+def rt_lines(ctx, count):
+    out = []
+    for _ in range(count):
+        n = ctx.rng.choice([1, 2, 2, 3, 4, 4, 8])
+        k = ctx.rng.randint(1, 24)
+        subs = ["s%d" % j for j in range(k)]
+        shape = ctx.rng.randrange(4)
+        if shape == 0:
+            body = subs + ["q"] * k
+        elif shape == 1:
+            body = [t for sname in subs for t in (sname, "q")]
+        elif shape == 2:
+            body, pending = [], 0
+            for sname in subs:
+                body.append(sname); pending += 1
+                while pending > ctx.rng.randint(0, 4):
+                    body.append("q"); pending -= 1
+            body += ["q"] * (pending + 1)
+        else:
+            body = subs + ["q"] * (k // 2)
+        for _ in range(ctx.rng.randint(0, 2)):
+            body.insert(ctx.rng.randrange(len(body) + 1), "g")
+        if ctx.rng.random() < 0.85:
+            body += ["g", "x"] if ctx.rng.random() < 0.5 else ["x"]
+        r = ctx.rng.random()
+        rc = "-" if r < 0.55 else "%d:%d" % (ctx.rng.randrange(k), ctx.rng.choice([-1, -7, 5])) if (r < 0.9 or k < 2) else "0:3,%d:-2" % (k - 1)
+        out.append("rt %d %d %s %d %s" % (ctx.rng.randrange(1 << 30), n, rc, ctx.rng.choice([0, 1, 2, 2, 3, 3]), " ".join(body)))
+    return out
+
+
+def compare_real_threads(ctx, stats):
+    """threadpool.c on real threads, perturbed at every pthread call: plain build (hang detector) and TSan build"""
+    res = {}
+    for tsan in (False, True):
+        tag = "tsan" if tsan else "plain"
+        h = rt_build(ctx, tsan)
+        lines = rt_lines(ctx, (300 if tsan else 600) if ctx.quick() else (3000 if tsan else 8000))
+        t0 = time.time()
+        env = {"TSAN_OPTIONS": "halt_on_error=1 exitcode=66 report_thread_leaks=0 second_deadlock_stack=1"} if tsan else None
+        impl, problems = run_parallel(ctx, [str(h)], lines, 1200, pin=False, per_job=20, env_extra=env)
+        hangs = races = 0
+        hung = [a for a in impl if "HANG" in a]
+        for a in hung:
+            hangs += 1
+            sc = a.split(" script: ", 1)[1] if " script: " in a else "?"
+            if hangs <= 2:
+                ctx.violation("rt-%s:%s" % (tag, sc), "real threads (%s build): the pool hung — no pthread call, API return or callback for 4 s, every thread "
+                              "sleeping — in: %s :: %s" % (tag, sc, a[:400]), {"rt_line": sc, "build": tag, "impl": a})
+        for pb in problems:
+            if pb["rc"] == 3:
+                continue                                  # the hang reported above (the process exits with 3)
+            elif pb["rc"] == 66 or "ThreadSanitizer" in pb["stderr"]:
+                races += 1
+                mm = re.search(r"WARNING: ThreadSanitizer: [^\n]*\n(?:[^\n]*\n){0,12}", pb["stderr"])
+                what = "real threads, ThreadSanitizer: %s in: %s" % ((mm.group(0) if mm else pb["stderr"][:600]).replace("\n", " | ")[:900], pb["script"])
+            else:
+                races += 1
+                what = "real threads: harness died (rc=%s) in: %s :: %s" % (pb["rc"], pb["script"], pb["stderr"][-300:])
+            if races <= 3:
+                ctx.violation("rt-%s:%s" % (tag, pb["script"]), what, {"rt_line": pb["script"], "build": tag, "stderr": pb["stderr"][-3000:]})
+        idx = [i for i, a in enumerate(impl) if a.startswith("r=") and "HANG" not in a]
+        need(len(idx) > len(lines) // 2 or problems, "real-thread harness (%s) answered %d of %d scripts" % (tag, len(idx), len(lines)))
+        infos = [classify_impl(impl[i]) for i in idx]
+        rets = [impl[i].split(" ||")[0][2:] for i in idx]
+        ops = [lines[i].split()[5:] for i in idx]
+        rcs = [lines[i].split()[3] for i in idx]
+        mon = driver_lines(ctx, monitor_lines(infos))
+        amon = driver_lines(ctx, ["apimon %s %s %s" % (rc, r, " ".join(o)) for rc, r, o in zip_strict(rcs, rets, ops)])
+        ser = driver_lines(ctx, ["serial - " + " ".join(o) for o in ops])
+        bad = nser = 0
+        for i, inf, r, rc, mo, am, se in zip_strict(idx, infos, rets, rcs, mon, amon, ser):
+            probs = []
+            if mo != "ok":
+                probs.append(mo)
+            if am != "ok":
+                probs.append(am)
+            if inf["err"]:
+                probs.append("harness-assertion:" + inf["err"])
+            if rc == "-":
+                nser += 1
+                if r != se:
+                    probs.append("failure-free run returns %s, the serial pool model %s (theorem refines_serial)" % (r, se))
+            if probs:
+                bad += 1
+                if bad <= 3:
+                    ctx.violation("rt-%s:%s" % (tag, lines[i]), "real threads (%s build): %s on: %s -> %s" % (tag, "; ".join(probs)[:600], lines[i], impl[i][:400]),
+                                  {"rt_line": lines[i], "build": tag, "impl": impl[i], "problems": probs})
+        res[tag] = {"scripts": len(lines), "answered": len(idx), "compared_with_serial_model": nser, "hangs": hangs, "tsan_reports": races,
+                    "violations": bad + len(problems), "wall_s": round(time.time() - t0, 1)}
+        stats["disagreements"] += bad + len(problems)
+    stats["real_threads"] = res
 
 
 def probe_variant(ctx, harness):
@@ -499,6 +887,11 @@ def probe_variant(ctx, harness):
 
 
 def run(ctx):
+    if vlib.REPO.resolve() != vlib.Path("/repo") and not os.environ.get("VERIF_EVIDENCE_DIR"):
+        # a run against a tree other than /repo (mutant, scratch worktree) must never overwrite the committed evidence
+        vlib.EVIDENCE = vlib.REPLAYS / "evidence-nonrepo"
+        vlib.EVIDENCE.mkdir(parents=True, exist_ok=True)
+        ctx.log("VERIF_REPO=%s is not /repo: evidence goes to %s" % (vlib.REPO, vlib.EVIDENCE))
     ok, problems = vlib.proof_gate(ctx, MODULE, REQUIRED)
     if not ok:
         ctx.violation("proof:C09", "proof obligations of C09 no longer check: " + " | ".join(problems)[:1500],
@@ -561,8 +954,14 @@ def run(ctx):
                 guided += rand_scripts(ctx, rep, n, rc, ctx.rng.randrange(1 << 30), nrand, ctx.rng.choice([10, 30, 60]), ctx.rng.choice([0, 3, 10]), ops)
     compare(ctx, harness, rep, guided, stats, "guided-random")
     compare(ctx, harness, rep, random_long(ctx, rep, 1500 if ctx.quick() else 30000, 8, 40, 300), stats, "unguided-random")
+    compare_fine(ctx, harness, rep, stats)
+    compare_real_threads(ctx, stats)
     compare_block_processor(ctx, rep, stats)
     compare_create_failure(ctx, harness, stats)
+    for lab in ("corpus", "complete", "bounded", "guided-random", "unguided-random"):
+        need(stats["by_label"].get(lab, 0) > 0, "no '%s' schedule was evaluated" % lab)
+    need(stats["steps"] > 10 * stats["scripts"] > 0, "implausibly few steps compared (%d in %d schedules)" % (stats["steps"], stats["scripts"]))
+    need(stats.get("ctx_monitored", 0) > 0 and stats.get("threaded_vs_serial", 0) > 0, "context monitor / serial comparison evaluated nothing")
     ctx.cov.update({
         "evaluations": stats["scripts"],
         "steps": stats["steps"],
@@ -576,8 +975,12 @@ def run(ctx):
         "enumerations": enum_cfgs,
         "histogram_scripts_reaching": stats["hist"],
         "d1_deadlock_schedules": stats["d1_deadlocks"],
+        "fine_granularity_schedules": stats.get("fine"),
+        "real_threads": stats.get("real_threads"),
+        "context_clause_monitor": {"schedules_checked": stats.get("ctx_monitored", 0), "schedules_outside_the_usage_discipline": stats.get("ctx_undisciplined", 0)},
         "block_processor_on_controlled_pool": stats.get("bp"),
         "create_failure_runs": stats.get("create_failure_runs", 0),
+        "create_failure_traces_compared_with_model": stats.get("create_failure_traces_compared_with_model", 0),
         "serial_pool_scripts": stats.get("serial_scripts", 0),
         "threaded_vs_serial_return_value_comparisons": stats.get("threaded_vs_serial", 0),
         "disagreements_checked": stats["disagreements"],
@@ -588,11 +991,14 @@ def run(ctx):
     return ctx.finish(LEVEL, trusted_extra=[
         "pthread semantics are the model's: mutual exclusion, pthread_cond_wait releases the mutex atomically and may wake spuriously, "
         "broadcast wakes every current waiter, join returns after the target returned; harness/sched.c implements exactly these",
-        "modelled: lib/util/src/threadpool.c (POSIX branch; calloc failure in submit and pthread_create failure in thread_pool_create are not "
-        "modelled — C13), threadpool_serial.c as the FIFO specification; not modelled: the C memory model (the shim serialises all threads)"],
-        assumptions=["a step of the model = the code one thread runs between two blocking points; sound because no critical section of "
+        "modelled: lib/util/src/threadpool.c (POSIX branch, incl. set_worker_ptr and the calloc failure of submit; thread_pool_create and its "
+        "pthread_create failure path are exercised only), threadpool_serial.c as the FIFO specification; not modelled: the C memory model "
+        "(the shim serialises all threads; the TSan build of harness/h_c09rt.c monitors happens-before on real threads), the w32 branch",
+        "harness/h_c09rt.c + shim_c09_rt.h (real threads, perturbation, hang detector), libtsan"],
+        assumptions=["a step of the model = the code one thread runs between two blocking points; justified by: no critical section of "
                      "threadpool.c contains a blocking point (asserted by the harness at every scheduling point) and the code between "
-                     "unlock and the next lock touches only main-thread-private fields"])
+                     "unlock and the next lock touches only thread-private state — not proved, checked on every run by the fine-mode "
+                     "schedules (derived coarse schedule must reproduce every state) and by the ThreadSanitizer build on real threads"])
 
 
 def replay(ctx, path):
@@ -609,15 +1015,55 @@ def replay(ctx, path):
         r = dict(kv.split("=") for kv in impl[0].split()) if impl[0].startswith("rc=") else {}
         want = rp.get("serial") or {}
         fail = ":e" in rp["bp_line"]
-        bad = bool(problems) or r.get("dl") == "1" or r.get("mtx") == "1" or \
-            (fail and r.get("rc") == "0") or (not fail and want and any(r.get(k) != want.get(k) for k in ("rc", "sz", "out", "ino")))
+        bad = bool(problems) or r.get("dl") == "1" or r.get("mtx") == "1" or r.get("shared") == "1" or \
+            (fail and int(r.get("cfail", "0")) > 0 and r.get("pst") != r.get("cerr")) or \
+            (fail and r.get("rc") not in ("0", r.get("cerr"))) or \
+            (not fail and want and any(r.get(k) != want.get(k) for k in ("rc", "sz", "out", "ino")))
         print("violated:", bad)
         return 1 if bad else 0
+    if "fine_line" in rp:
+        ctx.lean_build(["sqfsmodel"])
+        harness = harness_build(ctx)
+        impl, problems = run_parallel(ctx, [str(harness)], [rp["fine_line"]], 120)
+        print("fine schedule :", rp["fine_line"])
+        print("real code     :", impl[0] if impl else "-", problems[:1])
+        if problems or not impl[0].startswith("fine "):
+            print("violated: crash/hang")
+            return 1
+        mo = ctx.driver(["c09"], derived_script(rp["fine_line"], impl[0]) + "\n")[0]
+        probs, _ = fine_verdict(rp["fine_line"], impl[0], mo)
+        if rp["fine_line"].startswith("finev "):
+            fmo = ctx.driver(["c09"], fine_model_script(rp["fine_line"], impl[0]) + "\n")[0]
+            probs += fine_model_verdict(impl[0], fmo)[0]
+        print("model on the derived coarse schedule:", mo)
+        print("violated:", probs)
+        return 1 if probs else 0
+    if "rt_line" in rp:
+        tsan = rp.get("build") == "tsan"
+        h = rt_build(ctx, tsan)
+        ctx.lean_build(["sqfsmodel"])
+        env = {"TSAN_OPTIONS": "halt_on_error=1 exitcode=66 report_thread_leaks=0"} if tsan else None
+        seen = 0
+        for rnd in range(30):                      # real threads: the interleaving is not reproducible exactly; repeat
+            impl, problems = run_parallel(ctx, [str(h)], [rp["rt_line"]], 300, pin=False, env_extra=env)
+            if problems or "HANG" in impl[0]:
+                print("round %d:" % rnd, impl[0][:300], (problems[0]["stderr"][-1500:] if problems else ""))
+                seen += 1
+                break
+            parts = rp["rt_line"].split()
+            am = ctx.driver(["c09"], "apimon %s %s %s\n" % (parts[3], impl[0].split(" ||")[0][2:], " ".join(parts[5:])))[0]
+            mo = ctx.driver(["c09"], "\n".join(monitor_lines([classify_impl(impl[0])])) + "\n")[0]
+            if am != "ok" or mo != "ok" or " err=" in impl[0]:
+                print("round %d:" % rnd, impl[0], am, mo)
+                seen += 1
+                break
+        print("violated:", bool(seen))
+        return 1 if seen else 0
     if "cfail_line" in rp:
         harness = harness_build(ctx)
         impl, problems = run_parallel(ctx, [str(harness)], [rp["cfail_line"]], 60)
         print(rp["cfail_line"], "->", impl[0], problems[:1])
-        ok = impl[0].startswith("null=1 dl=0 alive=0 ") and impl[0].endswith("mtx=0") and not problems
+        ok = not problems and impl[0].startswith("null=1 dl=0 alive=0 ") and impl[0].split(" || ")[0].endswith("mtx=0")
         return 0 if ok else 1
     if "script" not in rp:
         print("replay file names a broken obligation, no schedule to replay:", json.dumps(rp)[:500])
